@@ -228,9 +228,15 @@ type worker struct {
 func startWorker() *worker {
 	cmd := exec.Command(os.Args[0], "worker")
 	cmd.Stderr = io.Discard
+	cmd.Env = os.Environ()
 	// temp files of the code under test (extract, save) go to a memory file system when there is one
 	if st, err := os.Stat("/dev/shm"); err == nil && st.IsDir() && os.Getenv("VERIF_KEEP_TMPDIR") == "" {
-		cmd.Env = append(os.Environ(), "TMPDIR=/dev/shm")
+		cmd.Env = append(cmd.Env, "TMPDIR=/dev/shm")
+	}
+	// make the collector work harder well before the address-space ceiling: whether garbage has been
+	// collected when the ceiling is reached must not depend on how busy the machine is
+	if MemLimit > 0 {
+		cmd.Env = append(cmd.Env, fmt.Sprintf("GOMEMLIMIT=%d", MemLimit/2))
 	}
 	in, _ := cmd.StdinPipe()
 	outp, _ := cmd.StdoutPipe()
@@ -250,6 +256,20 @@ func (w *worker) kill() {
 type pool struct{ w *worker }
 
 func (p *pool) exec(c Case) string {
+	obs := p.attempt(c, CaseTimeout)
+	if obs == "hang" || strings.HasPrefix(obs, "crash") {
+		// a worker that died or ran out of time is re-run once, alone in a fresh worker and with twice the
+		// time: a crash or hang of the code under test reproduces, one caused by a busy machine does not
+		again := p.attempt(c, 2*CaseTimeout)
+		if again != obs {
+			fmt.Fprintf(os.Stderr, "note: %s: first attempt %q, second attempt %q\n", c.Fn, obs, again)
+		}
+		return again
+	}
+	return obs
+}
+
+func (p *pool) attempt(c Case, timeout time.Duration) string {
 	if p.w == nil {
 		p.w = startWorker()
 	}
@@ -280,7 +300,7 @@ func (p *pool) exec(c Case) string {
 			return why
 		}
 		return r.s
-	case <-time.After(CaseTimeout):
+	case <-time.After(timeout):
 		w.kill()
 		p.w = nil
 		return "hang"
